@@ -31,6 +31,8 @@ type Env struct {
 	st     State // current heap state: family -> symbol
 	old    State // pre-state (for old())
 	wm0    string
+	cbSeen string                 // callback loop: the set of slice indices handed to the callback so far
+	cbElem func(k string) TTerm   // callback loop: element k of the slice before the call
 	famOf  func(fam string) string // returns current symbol of a family in st, creating the initial version on demand
 	famOld func(fam string) string
 	err    *error
@@ -687,6 +689,25 @@ func (e *Env) call(x *Expr) TTerm {
 			return I("(gs.byteat " + a[0].S + " " + a[1].S + ")")
 		}
 		return e.fail("byteOf(string, index)")
+	case "cell":
+		// cell(p): the value stored in the variable p points to (a captured variable, a local whose address is taken)
+		if need(1) && a[0].T != nil {
+			if pt, ok := a[0].T.Underlying().(*types.Pointer); ok {
+				srt := e.g.SortOf(pt.Elem())
+				return TTerm{S: "(select " + e.famOf(e.g.CellFamily(srt)) + " " + a[0].S + ")", Sort: srt, T: pt.Elem()}
+			}
+		}
+		return e.fail("cell(pointer to a variable)")
+	case "cbSeen":
+		if need(1) && e.cbSeen != "" {
+			return B("(select " + e.cbSeen + " " + a[0].S + ")")
+		}
+		return e.fail("cbSeen is only meaningful in `at callee#n invariant` clauses")
+	case "cbElem":
+		if need(1) && e.cbElem != nil {
+			return e.cbElem(a[0].S)
+		}
+		return e.fail("cbElem is only meaningful in `at callee#n invariant` clauses")
 	case "jsonInput":
 		// the induction hypothesis of the C18 sweep: every value received so far is a finite JSON value
 		return B("c18.ih")
